@@ -1,0 +1,105 @@
+//go:build verif
+
+// Package verifhook provides named instrumentation points for runtime
+// monitoring. With the "verif" build tag each point
+//
+//   - is counted,
+//   - is appended to the file named by VERIF_HOOK_LOG ("seq name detail"),
+//   - yields or sleeps on a seeded coin if VERIF_HOOKS=seed:permille:maxmicros
+//     is set (schedule perturbation),
+//   - kills the process with SIGKILL when VERIF_CRASH_AT=name#n names the
+//     n-th hit (1-based) of that point (crash injection).
+//
+// All state is guarded by one mutex and touched nowhere else.
+package verifhook
+
+import (
+	"fmt"
+	"os"
+	"runtime"
+	"strconv"
+	"strings"
+	"sync"
+	"syscall"
+	"time"
+)
+
+const Enabled = true
+
+var (
+	mu       sync.Mutex
+	inited   bool
+	counts   = map[string]int{}
+	seq      int
+	logf     *os.File
+	rng      uint64
+	permille uint64
+	maxus    uint64
+	crashAt  string
+	crashN   int
+)
+
+func initLocked() {
+	inited = true
+	if p := os.Getenv("VERIF_HOOK_LOG"); p != "" {
+		logf, _ = os.OpenFile(p, os.O_WRONLY|os.O_CREATE|os.O_APPEND, 0o644)
+	}
+	if s := os.Getenv("VERIF_HOOKS"); s != "" {
+		parts := strings.Split(s, ":")
+		if len(parts) == 3 {
+			rng, _ = strconv.ParseUint(parts[0], 10, 64)
+			rng = rng*0x9e3779b97f4a7c15 + 1
+			permille, _ = strconv.ParseUint(parts[1], 10, 64)
+			maxus, _ = strconv.ParseUint(parts[2], 10, 64)
+		}
+	}
+	if s := os.Getenv("VERIF_CRASH_AT"); s != "" {
+		if i := strings.LastIndexByte(s, '#'); i >= 0 {
+			crashAt = s[:i]
+			crashN, _ = strconv.Atoi(s[i+1:])
+		}
+	}
+}
+
+func next() uint64 {
+	rng ^= rng << 13
+	rng ^= rng >> 7
+	rng ^= rng << 17
+	return rng
+}
+
+func Point(name string) { PointD(name, "") }
+
+func PointD(name, detail string) {
+	mu.Lock()
+	if !inited {
+		initLocked()
+	}
+	counts[name]++
+	n := counts[name]
+	seq++
+	if logf != nil {
+		fmt.Fprintf(logf, "%d %s %s\n", seq, name, detail)
+	}
+	var sleep time.Duration
+	yield := false
+	if permille != 0 && next()%1000 < permille {
+		if maxus == 0 || next()%2 == 0 {
+			yield = true
+		} else {
+			sleep = time.Duration(next()%maxus+1) * time.Microsecond
+		}
+	}
+	crash := crashAt != "" && name == crashAt && n == crashN
+	mu.Unlock()
+	if crash {
+		syscall.Kill(os.Getpid(), syscall.SIGKILL)
+		select {}
+	}
+	if yield {
+		runtime.Gosched()
+	}
+	if sleep != 0 {
+		time.Sleep(sleep)
+	}
+}
